@@ -355,7 +355,7 @@ pub const PARK_SAMPLES: u32 = 150;
 pub const PARK_SPAN: Duration = Duration::from_millis(1500);
 pub const WATCHDOG: Duration = Duration::from_secs(120);
 pub const BUSY_TICKS: u64 = 30;
-pub const WAIT_SAMPLES: u32 = 60;
+pub const WAIT_SAMPLES: u32 = 25;
 pub const WAIT_SPAN: Duration = Duration::from_millis(700);
 
 /// Wait until `pred(log)` holds. The success path is signalled by the wrapped sink's own events through the
@@ -541,7 +541,7 @@ pub fn spawn_call_watchdog(on_blocked: impl Fn(&str, &Json, String) + Send + 'st
             // second criterion: the calling thread is WAITING (state S: sleep, lock, channel) sample after sample while it
             // is inside a call that never waits for anything. A thread that is merely starved of CPU is runnable (R), one
             // that pages is D: neither counts. (Catches waits that end on their own: grace periods, polling loops.)
-            let mut sleeping: Option<(Instant, Instant, u32)> = None; // (call instance, first S sample, S samples in a row)
+            let mut sleeping: Option<(Instant, Instant, u32, u32)> = None; // (call instance, first sample, S samples, samples)
             let mut busy: Option<(Instant, u64)> = None; // (call instance, CPU ticks when first seen)
             loop {
                 std::thread::sleep(Duration::from_millis(10));
@@ -560,14 +560,11 @@ pub fn spawn_call_watchdog(on_blocked: impl Fn(&str, &Json, String) + Send + 'st
                     Some(s) => s,
                     None => continue,
                 };
-                if st.state == 'S' {
-                    sleeping = match sleeping {
-                        Some((inst, first, n)) if inst == c.since => Some((inst, first, n + 1)),
-                        _ => Some((c.since, Instant::now(), 1)),
-                    };
-                } else {
-                    sleeping = None;
-                }
+                // (waiting in at least nine samples out of ten: a polling loop is caught awake now and then)
+                sleeping = match sleeping {
+                    Some((inst, first, n, total)) if inst == c.since => Some((inst, first, n + (st.state == 'S') as u32, total + 1)),
+                    _ => Some((c.since, Instant::now(), (st.state == 'S') as u32, 1)),
+                };
                 // third criterion: the call burns CPU (spin / yield loop): CPU time of the calling thread since the call was
                 // first seen, not wall time - a starved thread does not accumulate any
                 match (&busy, procmon::task_cpu_ticks(c.tid)) {
@@ -581,14 +578,15 @@ pub fn spawn_call_watchdog(on_blocked: impl Fn(&str, &Json, String) + Send + 'st
                     (_, Some(now)) => busy = Some((c.since, now)),
                     _ => {}
                 }
-                if let Some((_, first, n)) = sleeping {
-                    if n >= WAIT_SAMPLES && first.elapsed() >= WAIT_SPAN {
+                if let Some((_, first, n, total)) = sleeping {
+                    if total >= WAIT_SAMPLES && n * 10 >= total * 9 && first.elapsed() >= WAIT_SPAN {
                         let ev = format!(
-                            "calling thread {} has been inside `{}` for {} ms and was found waiting (state S) in {} consecutive samples over {} ms; emit, flush and drop on a queuing sink never wait for anything",
+                            "calling thread {} has been inside `{}` for {} ms and was found waiting (state S) in {} of {} samples over {} ms; emit, flush and drop on a queuing sink never wait for anything",
                             c.tid,
                             c.what,
                             c.since.elapsed().as_millis(),
                             n,
+                            total,
                             first.elapsed().as_millis()
                         );
                         on_blocked(&c.what, &c.context, ev);
